@@ -260,12 +260,14 @@ def run(ctx):
     # ------------------------------------------------------------------ cheap kernels under EVERY pool size 1..64
     rc, out, _ = vcheck.sh([ser, "kernels", str(ctx.seed)], timeout=600)
     kref, kinfo, _ = _parse(out)
+    kcases = [l[2:] for l in out.split("\n") if l.startswith("C ")]
     ctx.ob("kernels:reference-run", rc == 0 and len(kref) > 50, f"rc={rc} lines={len(kref)}")
     _fragment_coverage(ctx, kinfo)
     kbad = 0
     for T in range(1, 65):
         rc, out, _ = vcheck.sh([conc, "kernels", str(ctx.seed)], timeout=600, env={"RAYON_NUM_THREADS": str(T)})
         got, _, _ = _parse(out)
+        kcases += [l[2:] for l in out.split("\n") if l.startswith("C ")]
         diff = [k for k in sorted(kref) if got.get(k) != kref[k]]
         ctx.evaluations += len(got)
         for k in got:
@@ -279,6 +281,29 @@ def run(ctx):
             if rc != 0 and not diff:
                 ctx.add_failure({"what": "kernel run failed", "input": f"RAYON_NUM_THREADS={T}", "expected": "exit 0", "actual": out[-300:]})
     ctx.ob("kernels:bit-identical-for-every-pool-size-1..64", kbad == 0, f"{kbad} pool sizes differ")
+    if drv:
+        # node vectors of concurrent::build_merkle_nodes called directly (32..4096 leaves, ToyHasher) under every pool size,
+        # against the extracted model (Panic exactly when next_power_of_two(pool size) > leaves / 2)
+        ctx.ob("merkle-node-vectors:cases-for-every-pool-size", len(kcases) == 65 * 8, f"{len(kcases)} cases")
+        # the extracted model hashes on inductive Z (slow): one driver process per (leaves, number of subtrees) class
+        import concurrent.futures
+        groups = {}
+        for l in kcases:
+            w = l.split()
+            if len(w) >= 4 and w[3].isdigit() and w[1].isdigit():
+                T = int(w[3])
+                groups.setdefault((w[1], w[2], 1 << (T - 1).bit_length() if T > 0 else 0), []).append(l)
+        with concurrent.futures.ThreadPoolExecutor(max_workers=12) as ex:
+            futs = [ex.submit(ctx.correspondence, f"merkle-node-vectors:toyhasher:leaves={k[0]}:subtrees={k[2]}", g, drv, None, 1500)
+                    for k, g in sorted(groups.items(), key=lambda kv: -int(kv[0][0]))]
+            for f in futs:
+                f.result()
+        nc = ctx.notes.get("correspondence", {})
+        mv = {k: v for k, v in nc.items() if k.startswith("merkle-node-vectors:")}
+        for k in mv:
+            nc.pop(k)
+        nc["merkle-node-vectors:toyhasher:every-pool-size-1..64"] = {"cases": sum(v["cases"] for v in mv.values()),
+                                                                     "disagreements": sum(v["disagreements"] for v in mv.values()), "driver_processes": len(mv)}
 
     # ------------------------------------------------------------------ concurrent runs
     nonce_diffs, walls = 0, {}
